@@ -70,10 +70,25 @@ func rangeHeader(s *ast.ForStmt) (iv *ast.Ident, lo, hi ast.Expr, incl, ok bool)
 	iv, _ = init.Lhs[0].(*ast.Ident)
 	c, _ := cond.X.(*ast.Ident)
 	p, _ := post.X.(*ast.Ident)
+	hi = cond.Y
+	if sum, ok := unparen(cond.X).(*ast.BinaryExpr); ok && c == nil && iv != nil && sum.Op == token.ADD {
+		// `i + e < b` is `i < b - e` (on the integers: Go's int overflow is outside the model); `e` must not mention i
+		var other ast.Expr
+		if isIdent(unparen(sum.X), iv.Name) {
+			c, other = unparen(sum.X).(*ast.Ident), sum.Y
+		} else if isIdent(unparen(sum.Y), iv.Name) {
+			c, other = unparen(sum.Y).(*ast.Ident), sum.X
+		}
+		if c != nil && !identsOfAll(other)[iv.Name] && exprText(other) != "" {
+			hi = &ast.BinaryExpr{X: cond.Y, OpPos: cond.OpPos, Op: token.SUB, Y: &ast.ParenExpr{Lparen: other.Pos(), X: other, Rparen: other.End()}}
+		} else {
+			c = nil
+		}
+	}
 	if iv == nil || c == nil || p == nil || c.Name != iv.Name || p.Name != iv.Name || iv.Name == "_" {
 		return
 	}
-	return iv, init.Rhs[0], cond.Y, cond.Op == token.LEQ, true
+	return iv, init.Rhs[0], hi, cond.Op == token.LEQ, true
 }
 
 func (k *kernel) rangeFor(s *ast.ForStmt, ind int) {
@@ -148,6 +163,9 @@ func (k *kernel) rangeFor(s *ast.ForStmt, ind int) {
 	k.out, k.partial, k.clo, k.fdepth = savedOut, savedPartial, savedClo, savedFd
 	k.frameBase = savedBase
 	k.frames = savedFrames
+	if lv.everAssigned || assignsName(s.Body, iv.Name) {
+		k.fail(s, "loop over an int range whose body assigns the loop variable %s", iv.Name)
+	}
 	// the bounds are evaluated once: nothing the upper bound reads, and not the loop variable, is assigned in the body
 	reads := identsOf(hiE)
 	for _, v := range f.order {
